@@ -102,6 +102,9 @@ void AsmContext::init()
 
   macros.reset();
   def_param_stack_count = 0;
+
+  // .big_endian / .little_endian of the previous pass must not carry over.
+  memory.endian = ENDIAN_LITTLE;
 }
 
 void AsmContext::print_info(FILE *out)
